@@ -167,6 +167,21 @@ Example const_set_repaired :
   const_value pf0 W_const_set 2 = LOk (GSet [GBytes [x61]]).
 Proof. vm_compute. repeat split; reflexivity. Qed.
 
+(* F-14x / F-14y: a set literal (or `[]` for a map) nested in a const container goes through a nested lazily initialised
+   static; a list nested in a const list is a Vec (only the outermost list of a const is an array) *)
+Definition W_const_nested : lschema :=
+  mkLS [] [ (RVec (RSet RI64), LList [LList [LInt 1]; LList []]);
+            (RMap RI32 (RSet RFastStr), LMap [(LInt 1, LList [LString [x61]])]);
+            (RVec (RVec RI32), LList [LList [LInt 1]; LList [LInt 2]]);
+            (RVec (RMap RI32 RI32), LList [LList []; LMap [(LInt 1, LInt 2)]]) ].
+Example const_nested_repaired :
+  const_cty (RVec (RVec RI32)) = CArray (CVec Lit.CI32) /\
+  const_value pf0 W_const_nested 0 = LOk (GList [GSet [GI64 1]; GSet []]) /\
+  const_value pf0 W_const_nested 1 = LOk (GMap [(GI32 1, GSet [GBytes [x61]])]) /\
+  const_value pf0 W_const_nested 2 = LOk (GList [GList [GI32 1]; GList [GI32 2]]) /\
+  const_value pf0 W_const_nested 3 = LOk (GList [GMap []; GMap [(GI32 1, GI32 2)]]).
+Proof. vm_compute. repeat split; reflexivity. Qed.
+
 (* an integer at a set<double> element / map key; a string const at a `pilota.rust_type = "string"` field *)
 Example other_arms_repaired :
   default_val_lit pf0 (mkLS [] []) (RSet ROrderedF64) (LList [LInt 1; LFloat [x32; x2e; x35]])
